@@ -103,6 +103,8 @@ var c18Progs = []c18Prog{
 	{"forward-reference-inside-a-later-piece", []string{"x := a", "func first() { return second() + 1 }\nfunc second() { return x + 18 }", "r := first()", "r"}, []string{"r"}},
 	{"three-pieces-accumulate", []string{"l := []", "l.append(a)", "l.append(b)", "l.append(c)", "q := l[0] + l[1] + l[2]", "q"}, []string{"q"}},
 	{"piece-ends-with-a-loop", []string{"s := 0", "for i := 0; i < 3; i++ { s += a }", "s = s + 1", "s"}, []string{"s"}},
+	{"closure-from-a-factory-sees-later-globals", []string{"x := a", "mk := func() { return func() { x = x + 10; return x } }", "g := mk()", "y := b", "r1 := g()", "x = x + y", "r2 := g()", "r1 + r2 + x"}, []string{"x", "y", "r1", "r2"}},
+	{"function-nested-in-a-named-function", []string{"x := a", "func outer() { inner := func() { return x + 1 }; return inner }", "h := outer()", "z := c", "x = b", "r := h() + z", "r"}, []string{"x", "r"}},
 	{"switch-piece", []string{"x := 0", "switch a {\ncase 1:\n x = 10\ndefault:\n x = 20\n}", "x + b"}, []string{"x"}},
 }
 
@@ -169,6 +171,10 @@ var c18Rejected = []struct{ name, src string }{
 	{"undefined-in-function-body", "f := func() { return qq }"},
 	{"undefined-in-call-args", "emit(x, zz)"},
 	{"call-then-undefined", "emit(7) + zz"},
+	{"assign-call-result-to-undefined-name", "zz = emit(7)"},
+	{"assign-call-result-to-constant", "const k2 = 1\nk2 = emit(7)"},
+	{"assign-failing-index-to-undefined-name", "zz = [1, 2, 3][7]"},
+	{"compound-assign-to-undefined-name", "zz += emit(7)"},
 }
 
 // HarnessC18RejectedPieceHasNoEffect: a piece rejected by the parser or the
